@@ -68,7 +68,6 @@ fn get_enum_dependencies(
             shared,
         } => {
             if seen.insert(shared.id.original.to_string()) {
-                res.push(shared.id.original.to_string());
                 for variant in &shared.variants {
                     match variant {
                         RustEnumVariant::Unit(_) => {}
